@@ -389,11 +389,11 @@ void checkAfter(vf::Ctx& c, Sys& s, const vector<bool>& named, const string& whe
   }
 
   // ---- (N) delegation for variables that are not selected
-  // known finding: two/three-point scheme, the last selected variable named in the update could not be probed and an
+  // known finding: the last selected variable named in the update could not be probed and an
   // earlier one was: the perturbation is undone while the function's analytic derivatives are switched off and nothing
   // evaluates the function again once they are switched on -> the function's derivatives are stale (NaN for PolyFn).
   // (an update that evaluates nothing - same values, nothing probed - leaves the state of the previous one)
-  if (!s.fn->log.empty()) s.analyticStale = g.scheme != 2 && ns.size() >= 2 && o.tol(ns.back()).mode == 3 && o.observedSpacing(ns.back()) == 0;
+  if (!s.fn->log.empty()) s.analyticStale = ns.size() >= 2 && o.tol(ns.back()).mode == 3 && o.observedSpacing(ns.back()) == 0;
   if (s.analyticStale && g.kind >= 1 && c.isKnown("C12-noprobe-stale-analytic")) { c.label("delegation_not_checked_known_stale_analytic"); return; }
   LD xl[MAXV] = {0, 0, 0, 0}; for (int j = 0; j < n; ++j) xl[j] = s.cur[j];
   for (int j = 0; j < n; ++j) {
